@@ -77,10 +77,23 @@ def main(ck, tier, w):
     ck.add_tlc(fres, 'MC_Fork(%d indexes x 4 key orders)' % len(sub))
     ck.require_actions(fres, ['ScanRecord', 'SelectChain', 'Verify', 'Deliver'], 'MC_Fork')
 
+    # deeper histories (11 non-genesis blocks) from seeded TLC simulation of the same node model
+    sres = run.tlc('CoreIndex', 'CoreIndex_sim', workers=4, timeout=600, simulate=150 if quick else 1500, depth=45, coverage=False)
+    ck.add_tlc(sres, 'CoreIndex_sim (simulation, N=11)')
+    deep = {}
+    for r in sres.replay:
+        r['recs'] = sorted(r['recs'], key=lambda x: x['id'])
+        if len(r['recs']) >= 7:
+            deep.setdefault(json.dumps(r, sort_keys=True), r)
+    deep = list(deep.values())
+    rng.shuffle(deep)
+    ck.cov['deep_histories_from_simulation'] = len(deep)
+
     def nontrivial(r):
         act = set(r['active'])
         return any(x['id'] not in act and x['data'] for x in r['recs'])
-    rsub = [r for r in forks if nontrivial(r)][:200 if quick else 4000] + [r for r in forks if not nontrivial(r)][:30 if quick else 300]
+    rsub = [r for r in forks if nontrivial(r)][:200 if quick else 4000] + [r for r in forks if not nontrivial(r)][:30 if quick else 300] \
+        + [r for r in deep if nontrivial(r)][:80 if quick else 1500]
     ck.cov['rule'] = ('every history of a node with <= %d non-genesis blocks (TLC, exhaustive: %d judged states, %d distinct '
                       'indexes); %d of them replayed on real data directories in two hash orders; non-trivial = index with at '
                       'least one competitor block that has data') % (4 if quick else 5, len(res.replay), len(forks), len(rsub))
@@ -97,26 +110,33 @@ def main(ck, tier, w):
             cb = r0.choice(['csvdump', 'csvdump', 'unspentcsvdump', 'balances', 'simplestats', 'opreturn'])
             tr = w.sub('trace')
             dump = w.mk('out') if cb in ('csvdump', 'unspentcsvdump', 'balances') else None
-            res_ = run.run_parser(d.path, cb, dump=dump, trace=tr, skip='spend,create,eval,dump_row,bal_row', verify=r0.random() < 0.5)
-            chain = [(h, blocks[b]) for h, b in enumerate(r['active'])]
+            # the selection must not depend on the range: --start anywhere from 0 to two above the active tip, --end sometimes
+            tip = len(r['active']) - 1
+            st = r0.choice([0, 0] + list(range(0, tip + 3)))
+            en = r0.choice([None, None, None, st + 1 + r0.randrange(0, 3)])
+            last = min(tip, en) if en is not None else tip
+            res_ = run.run_parser(d.path, cb, dump=dump, trace=tr, skip='spend,create,eval,dump_row,bal_row', verify=r0.random() < 0.5,
+                                  start=st or None, end=en)
+            chain = [(h, blocks[b]) for h, b in enumerate(r['active']) if st <= h <= last]
+            lastname = last if st <= last else st - 1
             probs = []
             if res_.rc != 0:
                 probs.append('exit status %d: %s' % (res_.rc, res_.stderr[-300:]))
             elif cb == 'csvdump':
                 exp, _ = ref.csv_expected(chain, 'bitcoin')
                 for f in ('blocks', 'transactions', 'tx_in', 'tx_out'):
-                    name = '%s-0-%d.csv' % (f, len(chain) - 1)
+                    name = '%s-%d-%d.csv' % (f, st, lastname)
                     if res_.files.get(name) != exp[f]:
                         got = chains.csv_col(res_.files.get(name, b''), 0) if f == 'blocks' else None
                         probs.append('%s is not the active chain (delivered hashes %s, active %s)' % (
                             name, got, [btc.hexrev(b['hash']) for _, b in chain] if f == 'blocks' else ''))
                         break
             elif cb == 'unspentcsvdump':
-                rows = set(res_.files.get('unspent-0-%d.csv' % (len(chain) - 1), b'').decode().splitlines()[1:])
+                rows = set(res_.files.get('unspent-%d-%d.csv' % (st, lastname), b'').decode('utf-8', 'replace').splitlines()[1:])
                 if rows != ref.unspent_rows(ref.utxo_expected(chain, 'bitcoin')):
                     probs.append('unspent rows are not those of the active chain')
             elif cb == 'balances':
-                rows = set(res_.files.get('balances-0-%d.csv' % (len(chain) - 1), b'').decode().splitlines()[1:])
+                rows = set(res_.files.get('balances-%d-%d.csv' % (st, lastname), b'').decode('utf-8', 'replace').splitlines()[1:])
                 if rows != ref.balances_rows(ref.utxo_expected(chain, 'bitcoin')):
                     probs.append('balances rows are not those of the active chain')
             elif cb == 'simplestats':
@@ -128,16 +148,16 @@ def main(ck, tier, w):
             elif cb == 'opreturn':
                 if chains.strip_log(res_.out) != b''.join(ref.opreturn_expected(chain, 'bitcoin')):
                     probs.append('opreturn lines are not those of the active chain')
-            out.append((variant, cb, probs, res_, tr))
+            out.append((variant, cb, probs, res_, tr, (st, en)))
         return r, out
     ran = chains.pmap(one, list(enumerate(rsub)))
-    traces = [t for _, out in ran for (_, _, _, _, t) in out]
+    traces = [t for _, out in ran for (_, _, _, _, t, _) in out]
     verdicts = iter(tracecheck.validate_many(traces, batch=60))
     for r, out in ran:
         if nontrivial(r):
             ck.distinct(json.dumps(r['recs'], sort_keys=True) + str(r['tip']))
         ck.sample({'records': r['recs'], 'active_chain': r['active']}, limit=4)
-        for variant, cb, probs, res_, tr in out:
+        for variant, cb, probs, res_, tr, rg in out:
             v = next(verdicts)
             ck.evals()
             ck.traces()
@@ -145,7 +165,7 @@ def main(ck, tier, w):
                 probs.append('trace rejected: %s at event %s %s' % (v['reason'], v['rejected_at'], v['event'] or ''))
             if probs:
                 ck.violation('; '.join(probs), {'index': r, 'hash_order': 'competitors sort %s the active blocks' % ('before' if variant else 'after'),
-                                                'callback': cb, 'observed': res_.brief(), 'trace_verdict': v, 'tags': []})
+                                                'callback': cb, 'start_end': rg, 'observed': res_.brief(), 'trace_verdict': v, 'tags': []})
     ck.assumptions += ['Quiescent: the node was not stopped in the middle of a chain activation',
                        'UniqueBestTip: no second fully validated block ties with the active tip (the block index alone cannot '
                        'tell them apart; Core keeps the tip in the chainstate database)',
